@@ -511,7 +511,7 @@ Lemma double_width_inv h G : inv2 h G ->
   end.
 Proof.
   intros J. pose proof J as [[[Hc Hz Hp Hn Wp Wn Hs] [Dc Dz Ds Dp Dn DWp DWn] Hsch Hzt Hcnt] Hr Hztp Hcfg Hcz].
-  unfold double_width. destruct (Z.eqb_spec (c_schema (h_cold h)) (-4)) as [E4|E4]; [repeat split; assumption|].
+  unfold double_width. destruct (Z.eqb_spec (c_schema (h_cold h)) (-4)) as [E4|E4]; [split; [exact J|split; reflexivity]|].
   rewrite Hcnt, Z.eqb_refl. cbn [negb]. unfold add_and_reset_counts. cbn [c_sum c_cnt c_zb c_zt c_schema c_bn c_pos c_neg].
   assert (S0 : sorted_from ([] : bmap) 0) by exact I.
   pose proof (fun k => double_merge_get (c_pos (h_hot h)) [] 0 0 k S0) as Gp.
@@ -523,7 +523,7 @@ Proof.
   constructor; cbn [h_hot h_cold h_n h_cfg c_schema c_zt]; try assumption; try lia.
   - constructor; cbn [h_hot h_cold h_n c_schema c_zt c_cnt]; try reflexivity; try lia.
     + constructor; cbn [c_sum c_cnt c_zb c_zt c_schema c_pos c_neg].
-      * lia.
+      * Show. lia.
       * rewrite Hzt, Dz, Hz. lia.
       * intros k. destruct (Gp k) as [E _]. rewrite E. cbn [m_get]. rewrite Hzt, Hsch.
         rewrite (halved_counts goes_pos (c_zt (h_hot h)) (c_schema (h_hot h)) (c_pos (h_hot h)) G k
